@@ -112,7 +112,7 @@ func c15BigFile(c *core.Collector, d consts.ActiveSafetyType, size int, seed uin
 	g := gen.G{Rand: core.NewRand(seed, "c15big", uint64(size))}
 	p := &attPlan{Kind: "att", Gen: fmt.Sprintf("one file of %d bytes", size), Dialect: int(d), V2019: g.Bool(), Serial0: g.U16(), Phone: "013800007777",
 		TermID: core.Hex([]byte("T7")), AlarmID: core.Hex([]byte("big")), BigWrites: true, Mode: "unit-per-write"}
-	f := attFile{Name: core.Hex([]byte("big.bin")), Size: size, ContSd: g.U64(), Type: 2}
+	f := attFile{Name: core.Hex([]byte("big.bin")), Size: size, ContSd: g.U64(), Type: 2, Dense: true}
 	const cs = 65536
 	var chunks [][2]int
 	for off := 0; off < size; off += cs {
